@@ -448,3 +448,84 @@ func VH_C09_SetThenReencode() {
 	c08sameBytes(second, want2, "every setter is reflected by the next encoding")
 	vrt.Reach("end")
 }
+
+// sequences of UPID setter calls before encoding: a descriptor that first held another UPID
+// configuration (a MID list or a single UPID) and is then switched must encode exactly its final
+// configuration (SetUPIDType clears what does not belong to the new type).
+func VH_C09_UPIDSwitch() {
+	prelude := vrt.Choose("prelude", 0, 2) // 0: MID with one 2-byte element, 1: single 3-byte UPID, 2: MID with two elements then NotUsed
+	final := vrt.Choose("final", 0, 4)     // 0: single UPID empty, 1: single UPID 2 bytes, 2: MID [], 3: MID [1 byte], 4: NotUsed (type 0, empty)
+	d := CreateSegmentationDescriptor()
+	w := c08symDesc(c08dshape{program: true, upidLen: 0})
+	d.SetEventID(w.eventID)
+	d.SetHasProgramSegmentation(true)
+	d.SetIsWebDeliveryAllowed(w.web)
+	d.SetHasNoRegionalBlackout(w.noBlackout)
+	d.SetIsArchiveAllowed(w.archive)
+	d.SetDeviceRestrictions(DeviceRestrictions(w.device))
+	d.SetTypeID(SegDescType(w.typeID))
+	d.SetSegmentNumber(w.segNum)
+	d.SetSegmentsExpected(w.segExp)
+	mkUPID := func(n int) UPID {
+		u := CreateUPID()
+		u.SetUPIDType(SegUPIDType(vrt.Byte("pre.type")))
+		b := make([]byte, n)
+		vrt.Bytes("pre.data", b)
+		u.SetUPID(b)
+		return u
+	}
+	switch prelude {
+	case 0:
+		d.SetUPIDType(SegUPIDMID)
+		d.SetMID([]UPID{mkUPID(2)})
+	case 1:
+		d.SetUPIDType(SegUPIDADI)
+		b := make([]byte, 3)
+		vrt.Bytes("pre.upid", b)
+		d.SetUPID(b)
+	case 2:
+		d.SetUPIDType(SegUPIDMID)
+		d.SetMID([]UPID{mkUPID(1), mkUPID(0)})
+		d.SetUPIDType(SegUPIDNotUsed)
+	}
+	switch final {
+	case 0, 1:
+		w.upidType = vrt.Byte("final.type")
+		vrt.Assume(w.upidType != 0x0D && w.upidType != 0x00)
+		d.SetUPIDType(SegUPIDType(w.upidType))
+		w.upid = make([]byte, final*2)
+		vrt.Bytes("final.upid", w.upid)
+		d.SetUPID(w.upid)
+	case 2, 3:
+		w.isMID, w.upidType, w.upid = true, 0x0D, nil
+		d.SetUPIDType(SegUPIDMID)
+		var mid []UPID
+		if final == 3 {
+			u := c08upid{typ: vrt.Byte("final.mid.type"), data: make([]byte, 1)}
+			vrt.Bytes("final.mid.data", u.data)
+			w.mid = []c08upid{u}
+			e := CreateUPID()
+			e.SetUPIDType(SegUPIDType(u.typ))
+			e.SetUPID(u.data)
+			mid = append(mid, e)
+		}
+		d.SetMID(mid)
+	case 4:
+		w.upidType, w.upid = 0, nil
+		d.SetUPIDType(SegUPIDNotUsed)
+	}
+	if prelude == 1 && (final == 0 || final == 4) {
+		// switching the type keeps a previously set single UPID unless the new type is MID or
+		// NotUsed; SetUPID(empty) then clears it. Both orders end with an empty UPID here.
+		if final == 0 {
+			d.SetUPID(nil)
+		}
+	}
+	got := d.Data()
+	want := c08descBytes(c09canon, w)
+	c08sameBytes(got, want, "the descriptor encodes exactly its final UPID configuration, whatever was set before")
+	vrt.Assert(byte(d.UPIDType()) == w.upidType, "UPIDType getter reflects the last SetUPIDType")
+	vrt.Assert(len(d.MID()) == len(w.mid), "MID getter reflects the final configuration")
+	vrt.Assert(len(d.UPID()) == len(w.upid), "UPID getter reflects the final configuration")
+	vrt.Reach("end")
+}
